@@ -17,11 +17,14 @@ CONSTANTS MCToks
 
 MCNames == {"a", "b", "c", "d"}
 MCHome  == [n \in MCNames \cup {LF, AT} |-> CASE n = "d" -> 1 [] n = LF -> 3 [] n = AT -> 2 [] OTHER -> 0]   \* a b c collide
+\* spelling: "a" is a substring of "b" (e.g. data\\x.bin inside xdata\\x.bin)
+MCSub   == [n \in MCNames |-> IF n = "a" THEN {"b"} ELSE {}]
 MCInit  == <<"a", "b">>                              \* a probe chain exists from the start; 3 of 4 slots live
 MCInitTok == [n \in {"a", "b"} |-> "t0"]
 \* small layout model: two names, more calls, real-ish file size
 LNames == {"a", "b"}
 LHome  == [n \in LNames \cup {LF, AT} |-> 0]
+LSub   == [n \in LNames |-> IF n = "a" THEN {"b"} ELSE {}]
 LInit  == <<"a">>
 LInitTok == [n \in {"a"} |-> "t0"]
 
@@ -32,12 +35,21 @@ CallRename == \E a \in UNames, b \in UNames : BeginRename(a, b)
 
 DesignNext == CallAdd \/ CallRemove \/ CallRename \/ DesignSteps \/ DesignSyncs
 MCSpec     == HInit /\ [][DesignNext]_hvars
-\* the implementation machine (expected to violate the invariants: see MC_MpqHashTable_code.cfg)
-CodeNext   == CallAdd \/ CallAddFix \/ CallRemove \/ CallRename \/ CodeSteps \/ CodeSyncs
-CodeSpec   == HInit /\ [][CodeNext]_hvars
+\* the implementation before the fix commits (TLC must keep refuting it: _codeA/B/C.cfg)
+Code0Next  == CallAdd \/ CallAddFix \/ CallRemove \/ CallRename \/ Code0Steps \/ Code0Syncs
+CodeSpec   == HInit /\ [][Code0Next]_hvars
+\* the implementation as it is now (TLC must exhibit the remaining deviations: _codeD/E/F.cfg)
+CodeNowNext == CallAdd \/ CallAddFix \/ CallRemove \/ CallRename \/ CodeSteps \/ CodeSyncs
+CodeNowSpec == HInit /\ [][CodeNowNext]_hvars
+\* ... and restricted to what is believed correct now (V1/V2, listfile present, no encryption, no name
+\* spelled inside another): this machine must satisfy everything the design does (_codeOK.cfg)
+NoSub == [n \in UNames |-> {}]
+CallAddPlain == \E n \in UNames, c \in MCToks, rep \in BOOLEAN : BeginAdd(n, c, rep, "none", "zlib")
+CodeOkNext == CallAddPlain \/ CallRemove \/ CallRename \/ CodeSteps \/ CodeSyncs
+CodeOkSpec == HInit /\ [][CodeOkNext]_hvars
 \* every started call finishes (checked in the small configuration)
 MCFairSpec == MCSpec /\ WF_hvars(DesignSteps)
-CodeFairSpec == CodeSpec /\ WF_hvars(CodeSteps)
+CodeFairSpec == CodeNowSpec /\ WF_hvars(CodeSteps)
 Termination == (pc # "idle") ~> (pc = "idle")
 
 (* ---------------- refinement mapping ---------------- *)
